@@ -31,7 +31,10 @@ class FormulaGen(object):
   def trigger_formula(self, m, t):
     r = self.r
     a = self._col(t)
-    opts = ['7', '(value or 0) + 1 if isinstance(value, (int, float)) else 1']
+    opts = ['7']
+    if 'trigger_self' not in self.off:
+      # counts its own evaluations: makes every extra/missing recalculation visible in the data
+      opts.append('(value or 0) + 1 if isinstance(value, (int, float)) else 1')
     if a:
       opts += ['$%s' % a, 'len(str($%s))' % a,
                '($%s or 0) * 10 if isinstance($%s, (int, float)) and not isinstance($%s, bool) else -1' % (a, a, a)]
